@@ -204,6 +204,92 @@ def send_case(rnd, host, size, script):
     return lit, {"blocks": len(blocks), "result": result}
 
 
+def request_reply_case(host, reply_size):
+    """a transaction over the line: the application asks with send_and_waitfor_response (S1F1 W), the peer acknowledges the block and
+    then sends the reply (S1F2, same system bytes, 1-2 blocks) as a sender does.  The reply goes to the caller - once - and is not
+    handed to message_received as well; an unsolicited message afterwards is."""
+    rig = make_rig(host)
+    obs = {"host": host, "reply_size": reply_size}
+
+    def line_len():
+        return len(b"".join(rig.conn.sent))
+
+    def wait_line(n, seconds=5.0):
+        deadline = time.monotonic() + seconds
+        while line_len() < n and time.monotonic() < deadline:
+            time.sleep(0.0005)
+        rig.settle(ignore_send_queue=True)
+        return line_len() >= n
+
+    def peer_sends(msg):
+        for blk in msg.blocks:
+            n0 = line_len()
+            rig.conn.feed(bytes([ENQ]))
+            wait_line(n0 + 1)
+            rig.conn.feed(blk.encode())
+            wait_line(n0 + 2)
+        rig.settle()
+
+    try:
+        fn = rig.settings.streams_functions.function(1, 1)()
+        box = {}
+        th = threading.Thread(target=lambda: box.setdefault("r", rig.proto.send_and_waitfor_response(fn)), daemon=True)
+        th.start()
+        if not wait_line(1):
+            raise common.Wedged("no ENQ for the request")
+        rig.conn.feed(bytes([EOT]))
+        wait_line(1 + 13)
+        sent = b"".join(rig.conn.sent)
+        system = int.from_bytes(sent[1 + 7:1 + 11], "big")
+        rig.conn.feed(bytes([ACK]))
+        rig.settle(ignore_send_queue=True)
+        reply = SecsIMessage(SecsIHeader(system, 1, 1, 2, from_equipment=host, require_response=False), bytes(range(256))[:reply_size] if reply_size <= 256 else bytes(reply_size))
+        peer_sends(reply)
+        th.join(10)
+        obs["caller_returned"] = not th.is_alive()
+        got = box.get("r")
+        obs["caller_got_the_reply"] = got is not None and got.header.system == system and bytes(got.data) == bytes(reply.data)
+        obs["also_fired_message_received"] = any(m.header.system == system for m in rig.app_messages)
+        unsolicited = SecsIMessage(SecsIHeader(system + 7, 1, 1, 13, from_equipment=host, require_response=True), b"\x01\x00")
+        peer_sends(unsolicited)
+        obs["unsolicited_delivered"] = sum(1 for m in rig.app_messages if m.header.system == system + 7)
+    finally:
+        rig.stop()
+    return obs
+
+
+def dispatch_at_empty_check_case(host):
+    """a received block is queued for dispatch at the very moment the dispatcher thread found its queue empty (forced through the
+    queue object's qsize()): it still has to reach the application without waiting for the next message"""
+    import queue as _queue
+    rig = make_rig(host)
+    try:
+        disp = rig.proto._thread
+        first = SecsIMessage(SecsIHeader(8001, 1, 1, 1, require_response=True), b"").blocks[0]
+        late = SecsIMessage(SecsIHeader(8002, 1, 1, 1, require_response=True), b"").blocks[0]
+        state = {"armed": True, "injected": False}
+
+        class Hooked(_queue.Queue):
+            def qsize(self):
+                n = super().qsize()
+                if n == 0 and state["armed"]:
+                    state["armed"] = False
+                    state["injected"] = True
+                    disp.queue_block(rig.proto, late)
+                    return 0
+                return n
+
+        disp._dispatch_queue = Hooked()
+        disp.queue_block(rig.proto, first)
+        deadline = time.monotonic() + 3
+        while time.monotonic() < deadline and len(rig.app_messages) < 2:
+            time.sleep(0.002)
+        got = [m.header.system for m in rig.app_messages]
+    finally:
+        rig.stop()
+    return {"host": host, "injected": state["injected"], "handed_to_the_application": got, "expected": [8001, 8002]}
+
+
 def gen_cases(rnd, tier):
     cases = []
     n = 40 if tier == "quick" else 300
@@ -304,6 +390,24 @@ def run(tier, replay=None):
                               **obs}, True, tag="retry")
             break
     common.report_wedged(report, rwedged, proof)
+    # transactions: the reply goes to the caller only; and the dispatcher's empty-queue moment
+    trans = []
+    for host, size in ([(False, 10), (True, 300)] if tier == "quick" else [(h, sz) for h in (False, True) for sz in (0, 10, 244, 245, 600)]):
+        obs = common.guarded(lambda a=(host, size): request_reply_case(*a), f"request/reply over the line: host={host}, reply of {size} bytes", rwedged, 60.0)
+        if obs is None:
+            continue
+        trans.append(obs)
+        if not (obs.get("caller_returned") and obs.get("caller_got_the_reply") and not obs.get("also_fired_message_received") and obs.get("unsolicited_delivered") == 1):
+            report.violation({"kind": "counterexample", "what": "a reply that was transferred once on the line did not arrive exactly once: at the waiting caller, not (also) as an unsolicited message", **obs}, True, tag="reply")
+            break
+    for host in (False, True):
+        obs = common.guarded(lambda h=host: dispatch_at_empty_check_case(h), f"block queued at the dispatcher's empty check, host={host}", rwedged, 30.0)
+        if obs is not None:
+            trans.append(obs)
+            if obs["injected"] and obs["handed_to_the_application"] != obs["expected"]:
+                report.violation({"kind": "counterexample", "what": "an acknowledged block queued for dispatch when the dispatcher had just found its queue empty never reached the application", **obs}, True, tag="lostwakeup")
+                break
+    common.report_wedged(report, rwedged, proof)
     bad, stats = evaluate(lits, "c17")
     spec_bad = [(i, m, sc) for i, m, sc in bad if sc >= 30]
     model_bad = [(i, m, sc) for i, m, sc in bad if m >= 10 and sc < 30]
@@ -338,5 +442,6 @@ def run(tier, replay=None):
     cov["correspondence"] = {k: v for k, v in stats.items() if k != "eval_errors"}
     cov["distribution"] = {"kinds": dict(Counter(c[0] + ("-corrupt" if c[0] == "recv" and c[3] is not None else "") for c in cases)), "device": dict(Counter("host" if c[1] else "equipment" for c in cases))}
     cov["samples"] = [repr(c)[:200] for c in cases[:: max(1, len(cases) // 5)][:5]]
+    cov["transactions_and_dispatch"] = trans
     cov["retry_after_damaged_block"] = [{k: o[k] for k in ("size", "blocks", "damaged_block", "second_attempt_all_acknowledged", "delivered_lengths", "intact_once")} for o in retries]
     return report.finish()
